@@ -12,11 +12,13 @@ def describe_deep(fn, op_or_place, depth=4):
         return "?"
     proj = ""
     for s in steps:
+        one = ""
         for pr in (s[2] if len(s) > 2 else []):
             if pr[0] == "f":
-                proj = "." + (pr[2] or str(pr[1])) + proj
+                one += "." + (pr[2] or str(pr[1]))
             elif pr[0] == "dc":
-                proj = "@" + pr[1] + proj
+                one += "@" + pr[1]
+        proj = one + proj
     last = steps[-1]
     k = last[0]
     if k == "call":
